@@ -67,11 +67,20 @@ RULE = (
     'reference date moved by 0 h .. 366 d) and values (and bounds values) '
     'are rewritten in place - same instants or moved ones - and the lookup '
     'is repeated; the second lookup is judged by the same oracle on the '
-    'axis as it is then.  Comparison is exact (dyadic inputs) except at decision '
-    'points: a query within tol = 8 eps x (largest |coordinate| + (n+1) x '
-    'widest cell) of a cell edge / within 2 tol of an exact tie may take '
-    'either neighbour (label accepted-by-ulp-leniency counts how often that '
-    'was needed).  Non-trivial: descending, or non-uniform, or a query '
+    'axis as it is then.  Comparison is exact except inside an explicit, '
+    'tight floating-point band at decision points: a query within tol = 8 '
+    'eps x (largest |coordinate| + (n+1) x widest cell) (+ twice the '
+    'disagreement of shared n x 2 vertices) of a cell edge / within 2 tol '
+    'of an exact tie may take either neighbour (label '
+    'accepted-by-ulp-leniency); tol is about 1e-12 of a cell, the '
+    'fractional-index noise measured on the unchanged tree is < 2e-15 of a '
+    'cell (< 0.04 tol).  Queries at every edge/midpoint -+ cell width x '
+    '{1e-9, 1e-7, 1e-6, 1e-5, 1e-4} lie outside the band and must land in '
+    'the right cell.  One value-lookup case in seven uses a non-dyadic axis '
+    '(step 0.1/0.7/0.3/1.1/0.05, or layers stretched by 1.05-1.3) whose n x '
+    '2 bounds are written as centre -+ half width in float64 or float32, so '
+    'adjacent rows share a vertex only up to rounding; the edge array is '
+    'then first vertices + last second vertex as documented.  Non-trivial: descending, or non-uniform, or a query '
     'within 1 ulp of an edge/midpoint.  Distinct by sha1 of the case spec.')
 ASSUMPTIONS = ['IEEE double arithmetic and numpy comparison are the '
                'reference for "contains"/"closest"',
@@ -82,6 +91,7 @@ BUDGET = {'quick': dict(examples=12800, max_s=200),
           'thorough': dict(examples=600000, max_s=2400)}
 
 Q = 0.25   # coordinate quantum
+NEAR = (1e-9, 1e-7, 1e-6, 1e-5, 1e-4)   # fractions of a cell width
 # UTC offsets (minutes) of timezone-aware query datetimes
 TZ_OFFSETS = [-360, 330, 540, -660, 345, 60, 0]
 
@@ -117,6 +127,29 @@ def _pool(coord, edges):
     for i in range(n - 1):
         for fr in (0.125, 0.375, 0.625, 0.875):
             pts.append((c[i] + fr * (c[i + 1] - c[i]), 'interior'))
+    # a cell width x {1e-9 .. 1e-4} on either side of every decision point:
+    # far outside the floating-point band of the oracle (measured on the
+    # unchanged tree: the fractional-index noise is < 2e-15 of a cell), so
+    # these must land in the right cell
+    dps = es if es else mids
+    for j, x in enumerate(dps):
+        for side in (-1, 1):
+            jj = j + (0 if side > 0 else -1)
+            if es:
+                if not 0 <= jj < len(es) - 1:
+                    continue
+                w = abs(es[jj + 1] - es[jj])
+            else:
+                w = abs(c[min(j + 1, n - 1)] - c[j]) / 2
+            sgn = side * (1 if c[1] > c[0] else -1)
+            for fr in NEAR:
+                pts.append((x + sgn * w * fr, 'near-edge'))
+    if es:
+        for j, x in enumerate(mids):
+            w = abs(c[j + 1] - c[j])
+            for fr in NEAR:
+                pts.append((x + w * fr, 'near-edge'))
+                pts.append((x - w * fr, 'near-edge'))
     # between the end centres and the outer edges of a bounds variable
     if es:
         for cc, ee in ((c[0], es[0]), (c[-1], es[-1])):
@@ -153,6 +186,40 @@ def coords(draw, nmin=2, nmax=8):
     if desc:
         c = c[::-1]
     return c
+
+
+@st.composite
+def decimal_axis(draw):
+    """non-dyadic coordinate with n x 2 bounds written the way data
+    producers write them: centre -+ half a step (step 0.1, 0.7, ...) or
+    layer mid-point -+ thickness / 2 of stretched layers, computed in float64
+    or float32 - adjacent rows then share a vertex only up to rounding.
+    Returns (centres, rows) in coordinate order, rows[i] = [first, second]
+    vertex in the direction of the coordinate."""
+    n = draw(st.sampled_from([2, 3, 4, 5, 6, 8, 12, 20, 33]))
+    ft = np.float32 if draw(st.booleans()) else np.float64
+    start = ft(draw(st.integers(-40, 40)) * Q)
+    if draw(st.booleans()):
+        step = ft(draw(st.sampled_from([0.1, 0.7, 0.3, 1.1, 0.05])))
+        c = [start + ft(i) * step for i in range(n)]
+        rows = [[x - step / ft(2), x + step / ft(2)] for x in c]
+        style = 'decimal-uniform'
+    else:
+        t0 = ft(draw(st.sampled_from([0.1, 0.3, 0.7])))
+        g = ft(draw(st.sampled_from([1.1, 1.3, 1.05])))
+        z = [start]
+        for i in range(n):
+            z.append(z[-1] + t0 * g ** ft(i))
+        c = [(z[i] + z[i + 1]) / ft(2) for i in range(n)]
+        rows = [[c[i] - (z[i + 1] - z[i]) / ft(2),
+                 c[i] + (z[i + 1] - z[i]) / ft(2)] for i in range(n)]
+        style = 'decimal-stretched'
+    c = [float(x) for x in c]
+    rows = [[float(a), float(b)] for a, b in rows]
+    if draw(st.sampled_from([False, False, True])):
+        c = c[::-1]
+        rows = [[b, a] for a, b in rows[::-1]]
+    return c, rows, style + ('/f4' if ft is np.float32 else '/f8')
 
 
 @st.composite
@@ -199,16 +266,33 @@ def _nqueries(draw, small_max):
 @st.composite
 def cases(draw, tier='quick'):
     kind = draw(st.sampled_from(['val'] * 7 + ['time']))
-    c = draw(coords())
-    cdtype = draw(st.sampled_from(['f8', 'f8', 'f8', 'f4', 'f4', 'i4']))
-    if cdtype == 'i4':
-        # integer-typed coordinate: scale the quarters to whole numbers
-        c = [x * 4 for x in c]
-    bkind = draw(st.sampled_from(['none', 'none', 'edges', 'nx2']))
-    edges = draw(edges_for(c)) if bkind != 'none' else None
+    rows = None
+    cstyle = 'dyadic'
+    if kind == 'val' and draw(st.integers(0, 6)) == 0:
+        c, rows, cstyle = draw(decimal_axis())
+        cdtype = 'f4' if cstyle.endswith('/f4') else 'f8'
+        bkind = draw(st.sampled_from(['nx2', 'nx2', 'nx2', 'edges', 'none']))
+        if bkind == 'none':
+            # approximated bounds are formed in the stored dtype: keep f8
+            cdtype = 'f8'
+        # the edge array as the library documents it for n x 2 bounds:
+        # first vertices + last second vertex
+        edges = [r_[0] for r_ in rows] + [rows[-1][1]] \
+            if bkind != 'none' else None
+        if bkind != 'nx2':
+            rows = None
+    else:
+        c = draw(coords())
+        cdtype = draw(st.sampled_from(['f8', 'f8', 'f8', 'f4', 'f4', 'i4']))
+        if cdtype == 'i4':
+            # integer-typed coordinate: scale the quarters to whole numbers
+            c = [x * 4 for x in c]
+        bkind = draw(st.sampled_from(['none', 'none', 'edges', 'nx2']))
+        edges = draw(edges_for(c)) if bkind != 'none' else None
     method = draw(st.sampled_from(['nearest', 'nearest', 'bounds', 'bounds',
                                    'exact']))
     spec = dict(kind=kind, coord=c, cdtype=cdtype, bkind=bkind, edges=edges,
+        rows=rows, cstyle=cstyle,
         bname=draw(st.sampled_from(['_bounds', '_bnds', 'attr'])),
         method=method, bounds=draw(st.sampled_from(
             ['ignore', 'warn', 'warn', 'error'])),
@@ -228,6 +312,13 @@ def cases(draw, tier='quick'):
         for x in allc + mids:
             pool += [x, x - 1 / 64., x + 1 / 64.]
         pool += [min(allc) - 50, max(allc) + 50]
+        # cell width x {1e-6, 1e-5, 1e-4} around the decision points,
+        # snapped to whole microseconds
+        for x, tag in _pool(c, edges):
+            if tag == 'near-edge':
+                xs_ = round(x * 3600e6) / 3600e6
+                if abs(xs_ - x) * 50 < min(abs(xs_ - y) for y in allc + mids):
+                    pool.append(xs_)
         k = _nqueries(draw, 8)
         idx = draw(st.lists(st.integers(0, len(pool) - 1), min_size=k,
                             max_size=k))
@@ -340,7 +431,10 @@ def build(spec):
         else:
             f.createDimension('nv', 2)
             bv = f.createVariable(bname, ecode, (dim, 'nv'))
-            bv[:] = np.array([e[:-1], e[1:]]).T
+            if spec.get('rows'):
+                bv[:] = np.array(spec['rows'], dtype=ecode)
+            else:
+                bv[:] = np.array([e[:-1], e[1:]]).T
     return f, dim
 
 
@@ -487,11 +581,23 @@ def _check_single(spec, fobj=None):
     c = np.array(spec['coord'], dtype=code).astype('d')
     n = c.size
     desc = bool(c[1] < c[0])
-    diffs = np.diff(c)
-    uniform = bool((diffs == diffs[0]).all())
+    # "uniform" as the library decides it: half differences in the stored
+    # dtype
+    hd = np.diff(np.array(spec['coord'], dtype=code)) / 2
+    uniform = bool((hd == hd[0]).all())
     hasb = spec['bkind'] != 'none'
     E = np.array(spec['edges'], dtype='d' if code == 'i' else code).astype(
         'd') if hasb else None
+    vertex_gap = 0.0
+    if hasb and spec.get('rows'):
+        # n x 2 bounds whose rows share vertices only up to rounding: the
+        # documented edge array is first vertices + last second vertex; the
+        # disagreement of the shared vertices widens the decision band
+        R = np.array(spec['rows'], dtype='d' if code == 'i' else code
+                     ).astype('d')
+        E = np.append(R[:, 0], R[-1, 1])
+        vertex_gap = float(np.abs(R[:-1, 1] - R[1:, 0]).max()) \
+            if len(R) > 1 else 0.0
     q = np.array(spec['queries'], dtype='d')
     method = spec['method']
     lnan = spec['left'] is not None
@@ -517,7 +623,7 @@ def _check_single(spec, fobj=None):
     scale = float(max(np.abs(c).max(), np.abs(E).max() if hasb else 0.0,
                       np.abs(q[np.abs(q) < 1e5]).max() if
                       (np.abs(q) < 1e5).any() else 0.0)) + (n + 1) * width
-    tol = 8 * np.finfo('d').eps * scale
+    tol = 8 * np.finfo('d').eps * scale + 2 * vertex_gap
     surely_out = (q < hlo) | (q > hhi)
     # the domain under the narrowest reading that is still certain: the
     # cells of the bounds variable when there is one (whatever the method);
@@ -541,7 +647,14 @@ def _check_single(spec, fobj=None):
             'bkind:' + spec['bkind'], 'method:' + method,
             'bounds:' + spec['bounds'], 'clean:' + spec['clean'],
             'left:%s' % spec['left'], 'right:%s' % spec['right'],
-            'kind:' + spec['kind'], 'cdtype:' + spec['cdtype'])
+            'kind:' + spec['kind'], 'cdtype:' + spec['cdtype'],
+            'cstyle:' + spec.get('cstyle', 'dyadic'))
+    if vertex_gap > 0:
+        r.label('nx2-shared-vertices-differ-by-rounding')
+    dpts = E if hasb else (c[:-1] + c[1:]) / 2
+    dist = np.abs(q[:, None] - dpts[None, :]).min(axis=1)
+    if ((dist > 4 * tol) & (dist <= 2e-4 * width)).any():
+        r.label('query-within-1e-4-cell-of-edge-outside-band')
     if hasb:
         r.label('bname:' + spec['bname'])
     if spec.get('scalar'):
